@@ -417,7 +417,10 @@ pub fn eval<'a, E: Env>(
             } else {
                 else_ast
             };
-            eval(result_ast, env)
+            // The result of a conditional expression is a value, not an
+            // lvalue, so it must not be assignable even if the selected operand
+            // is a variable.
+            into_value(eval(result_ast, env)?, env).map(Term::Value)
         }
     }
 }
